@@ -1,7 +1,7 @@
 (* CasesCodec16.v — evaluation of the `codecs16` projection (C16): observation codec, stream-value binary form,
    configuration / value codecs, retirement report. *)
 From stdpp Require Import gmap.
-From DS Require Import Base Decimal StreamValue Wire Sort Aggregators Outcome OutcomeCodec Observe ObservationCodec Config CasesHistory.
+From DS Require Import Base Decimal StreamValue Wire Sort Aggregators Outcome OutcomeCodec Observe ObservationCodec Config RetirementJson CasesHistory.
 Open Scope Z_scope.
 
 Inductive c16_case :=
@@ -18,6 +18,8 @@ Inductive c16_case :=
 | KMercOnchain (bytes : list Z) (decoded : res merc_onchain) (reenc : res (list Z))
 | KInt192 (v : Z) (enc : res (list Z)) (dec : res Z)
 | KInt192Raw (bytes : list Z) (dec : res Z)
+(* retirement report: (protocol version, validity starts or nil) -> Encode bytes -> Decode *)
+| KRetire (pver : Z) (va : option (gmap Z Z)) (enc : option (list Z)) (dec : option (Z * option (gmap Z Z)))
 (* codecs without a model (JSON based): the round-trip verdict computed on the implementation *)
 | KGoOnly (name : Z) (roundtrip_ok : bool).
 
@@ -51,6 +53,11 @@ Definition c16_agrees (c : c16_case) : bool :=
                               match dec with Ok c => res_eqb bytes_eq (merc_onchain_encode c) re | _ => true end
   | KInt192 v enc dec => res_eqb bytes_eq (encode_int192 v) enc && match enc with Ok b => res_eqb Z.eqb (decode_int192 b) dec | _ => true end
   | KInt192Raw bs dec => res_eqb Z.eqb (decode_int192 bs) dec
+  | KRetire pver va enc dec =>
+      match enc with
+      | Some bs => bytes_eq (rr_encode pver va) bs && bool_decide (rr_decode bs = dec)
+      | None => false
+      end
   | KGoOnly _ _ => true
   end.
 
@@ -82,6 +89,7 @@ Definition c16_spec_ok (c : c16_case) : bool :=
                          then match enc, dec with Ok b, Ok v' => (length b =? 24)%nat && (v =? v') | _, _ => false end
                          else is_err enc
   | KInt192Raw bs dec => if (length bs =? 24)%nat then is_ok dec else is_err dec
+  | KRetire pver va enc dec => match enc with Some _ => bool_decide (dec = Some (pver, va)) | None => false end
   | KGoOnly _ ok => ok
   end.
 
@@ -89,7 +97,7 @@ Definition c16_branch (c : c16_case) : nat :=
   match c with
   | KObs (Some _) _ _ _ _ => 0 | KObs None _ (Ok _) _ _ => 1 | KObs None _ _ _ _ => 2 | KSval _ _ _ => 3 | KSvalRaw _ _ _ => 4
   | KOffchain _ _ _ => 5 | KOffchainRaw _ _ => 6 | KLloOnchain _ _ _ => 7 | KMercOnchain _ _ _ => 8
-  | KInt192 _ _ _ => 9 | KInt192Raw _ _ => 10 | KGoOnly _ _ => 11 end%nat.
+  | KInt192 _ _ _ => 9 | KInt192Raw _ _ => 10 | KGoOnly _ _ => 11 | KRetire _ _ _ _ => 11 end%nat.
 Definition histogram12 (l : list nat) : list nat := map (fun b => length (List.filter (Nat.eqb b) l)) (seq 0 12).
 Definition c16_eval (cs : list c16_case) : list nat * list nat * list nat :=
   (index_where (fun c => negb (c16_agrees c)) cs, index_where (fun c => negb (c16_spec_ok c)) cs, histogram12 (map c16_branch cs)).
